@@ -3,7 +3,8 @@
 // (1) first-order optimality of the returned coefficients, componentwise, sound for any
 // conditioning; (2) agreement with the reference solution when well conditioned; (3) metamorphic
 // relations (spline data reproduced, zero-weight entries and listing order irrelevant, scalar vs
-// per-dimension arguments, C wrapper identical).
+// per-dimension arguments, C wrapper identical, polynomials below the penalty order reproduced for
+// every smoothing strength).
 #include <cfloat>
 #include "common/vf_rc.hpp"
 #include "common/fitgen.hpp"
@@ -141,10 +142,86 @@ CaseResult body_metamorphic(Chooser& ch, Stats* st) {
   return r;
 }
 
+// (3c) data that are a polynomial of degree below the penalty order (in every dimension) are reproduced
+// for every smoothing strength: the penalty vanishes on them and they lie in the spline space on the
+// fully supported range, so the objective's minimum is zero and is attained there.
+CaseResult body_polynomial(Chooser& ch, Stats* st) {
+  CaseResult r;
+  QuietStderr q;
+  FitGenOpts fo; fo.max_ndim = 3; fo.min_order = 1; fo.max_coeff = 200; fo.max_rows = 2500; fo.allow_sparse = false; fo.allow_zero_weights = false;
+  FitProblem p = gen_fit_problem(ch, fo);
+  p.single_porder = false;
+  for (uint32_t d = 0; d < p.ndim; d++) p.porder[d] = 1 + (uint32_t)ch.draw(0, p.order[d] - 1);
+  if (p.single_smooth) for (auto& s : p.smooth) s = p.smooth[0];
+  // abscissae inside the fully supported range only (polynomials are in the spline space there, not in the margins)
+  std::vector<double> lo(p.ndim), hi(p.ndim);
+  for (uint32_t d = 0; d < p.ndim; d++) {
+    lo[d] = p.knots[d][p.order[d]]; hi[d] = p.knots[d][p.knots[d].size() - p.order[d] - 1];
+    std::vector<double> c; for (double x : p.coords[d]) if (x >= lo[d] && x <= hi[d]) c.push_back(x);
+    // (the generator thins over-large grids from the middle, which can empty a short supported range)
+    if (c.size() < p.order[d] + 2) { c.clear(); for (uint32_t j = 0; j < p.order[d] + 2; j++) c.push_back(lo[d] + (hi[d] - lo[d]) * (j + 0.5) / (p.order[d] + 2)); }
+    p.coords[d] = c;
+  }
+  // polynomial with small integer coefficients in the normalised variables u_d = (x_d - mid_d)/half_d
+  std::vector<size_t> pstride(p.ndim); size_t nmono = 1; for (uint32_t d = p.ndim; d-- > 0;) { pstride[d] = nmono; nmono *= p.porder[d]; }
+  std::vector<double> a(nmono); bool nonconst = false;
+  for (size_t m = 0; m < nmono; m++) { a[m] = (double)ch.range(-4, 4); if (m > 0 && a[m] != 0) nonconst = true; }
+  auto poly = [&](const std::vector<double>& x) { LD v = 0; for (size_t m = 0; m < nmono; m++) { LD t = a[m]; for (uint32_t d = 0; d < p.ndim; d++) { unsigned e = (unsigned)((m / pstride[d]) % p.porder[d]); LD u = ((LD)x[d] - ((LD)lo[d] + hi[d]) / 2) / (((LD)hi[d] - lo[d]) / 2); for (unsigned k = 0; k < e; k++) t *= u; } v += t; } return v; };
+  // dense grid of data with the weight pattern drawn here
+  size_t ngrid = 1; for (auto& c : p.coords) ngrid *= c.size();
+  int wkind = (int)ch.draw(0, 1); uint64_t salt = ch.draw(0, 0xffff);
+  p.idx.assign(p.ndim, {}); p.y.clear(); p.w.clear();
+  std::vector<double> x(p.ndim);
+  for (size_t g = 0; g < ngrid; g++) {
+    size_t rr = g; std::vector<unsigned> I(p.ndim);
+    for (uint32_t d = p.ndim; d-- > 0;) { I[d] = (unsigned)(rr % p.coords[d].size()); rr /= p.coords[d].size(); x[d] = p.coords[d][I[d]]; }
+    uint64_t h = mix64(salt ^ mix64(g));
+    for (uint32_t d = 0; d < p.ndim; d++) p.idx[d].push_back(I[d]);
+    p.y.push_back((double)poly(x));
+    p.w.push_back(wkind == 0 ? 1.0 : ldexp(1.0 + (double)(h % 64) / 64.0, (int)((h >> 8) % 9) - 4));
+  }
+  p.data_class = std::string("polynomial_below_penalty_order+dense+") + (wkind ? "varw" : "unitw"); p.listing = "grid_order";
+  r.json = "{\"polynomial_coefficients\":" + jarr(a) + ",\"problem\":" + p.json() + "}";
+  DenseSys S = assemble_reference(p);
+  std::vector<LD> L;
+  if (!cholesky_ld(S.A, S.n, L)) { r.discard = true; if (st) st->label("discard:not_positive_definite"); return r; }
+  LD cond = cond_estimate(S.A, L, S.n);
+  if (!(cond < 1e9L)) { r.discard = true; if (st) st->label("discard:ill_conditioned"); return r; }
+  Table t;
+  try { run_fit(t, p, Table::no_monodim); } catch (std::exception& e) { r.fail = std::string("fit threw: ") + e.what(); return r; }
+  size_t n = p.ncoeff(); auto nf = p.nfun();
+  if (t.get_ncoeffs() != n) { r.fail = "fit produced " + std::to_string(t.get_ncoeffs()) + " coefficients, expected " + std::to_string(n); return r; }
+  std::vector<size_t> stride(p.ndim); { size_t s2 = 1; for (uint32_t d = p.ndim; d-- > 0;) { stride[d] = s2; s2 *= nf[d]; } }
+  LD cmax = 0; for (size_t i = 0; i < n; i++) cmax = std::max(cmax, fabsl((LD)t.get_coefficients()[i]));
+  LD pmax = 0; for (double v : p.y) pmax = std::max<LD>(pmax, fabs(v));
+  // the returned coefficients are the exact ones rounded to float plus the double-precision solve's error
+  LD tol = (8 * (LD)FLT_EPSILON + 256 * cond * (LD)DBL_EPSILON) * std::max(cmax, pmax) + 1e-30L;
+  bool lam = false; for (double s2 : p.smooth) if (s2 > 0) lam = true;
+  for (size_t row = 0; row < p.nrows(); row++) {
+    std::vector<std::pair<size_t, LD>> ent{{0, 1.0L}};
+    for (uint32_t d = 0; d < p.ndim; d++) { std::vector<std::pair<size_t, LD>> nx; for (auto& e : ent) for (size_t i = 0; i < nf[d]; i++) { LD b = fit_basis(p.knots[d], (int)i, (int)p.order[d], p.coords[d][p.idx[d][row]]); if (b != 0) nx.push_back({e.first + i * stride[d], e.second * b}); } ent.swap(nx); }
+    LD v = 0; for (auto& e : ent) v += (LD)t.get_coefficients()[e.first] * e.second;
+    if (!(fabsl(v - (LD)p.y[row]) <= tol)) {
+      std::vector<double> xx; for (uint32_t d = 0; d < p.ndim; d++) xx.push_back(p.coords[d][p.idx[d][row]]);
+      r.fail = "polynomial data of degree below the penalty order are not reproduced: fitted value " + jnum((double)v) + " at " + jarr(xx) + ", data " + jnum(p.y[row]) + " (tolerance " + jnum((double)tol) + ", cond " + jnum((double)cond) + ")";
+      return r;
+    }
+  }
+  if (st) {
+    st->label("ndim:" + std::to_string(p.ndim)); st->label(lam ? "smoothing>0" : "smoothing=0"); st->label(nonconst ? "polynomial:non_constant" : "polynomial:constant");
+    for (uint32_t d = 0; d < p.ndim; d++) st->label("porder:" + std::to_string(p.porder[d]));
+    double smax = 0; for (double s2 : p.smooth) smax = std::max(smax, s2); if (smax >= 1e3) st->label("smoothing>=1e3");
+    st->maxi("max_log10_cond", (double)log10l(cond));
+    if (lam && nonconst) { Hasher h; for (uint32_t d = 0; d < p.ndim; d++) { h.add(p.order[d]); h.add(p.porder[d]); h.addd(p.smooth[d]); for (double k : p.knots[d]) h.addd(k); } for (double v : p.y) h.addd(v); st->nontriv(h.h); }
+    st->sample(r.json);
+  }
+  return r;
+}
+
 }  // namespace
 
 int main(int argc, char** argv) {
   Options o = parse_options(argc, argv);
-  Prop a{"objective", body_objective, 3.0}, b{"metamorphic", body_metamorphic, 1.0};
-  return run_main(o, "C09", {a, b});
+  Prop a{"objective", body_objective, 3.0}, b{"metamorphic", body_metamorphic, 1.0}, c{"polynomial", body_polynomial, 1.0};
+  return run_main(o, "C09", {a, b, c});
 }
